@@ -222,8 +222,8 @@ def run(ctx):
     phases['model_checking'] = round(ctx.elapsed(), 1)
 
     runs = []       # (replay payload, trace case)
-    budget = time.time() + (70 if quick else 700)
-    max_pairs = 90 if quick else 1200
+    budget = time.time() + (70 if quick else 540)
+    max_pairs = 90 if quick else 700
 
     def add_perm(P, C, ops, classes, iface, origin, base=None):
         root = os.path.join(ctx.work, f'r{len(runs)}')
@@ -245,10 +245,10 @@ def run(ctx):
     else:
         # ---- 2. run pairs: TLC-sampled small projects and seeded larger ones x pipelines x class permutations
         small = []
-        for np_, n in (((4, 24),) if quick else ((3, 80), (4, 140))):
+        for np_, n in (((4, 24),) if quick else ((3, 60), (4, 120))):
             small += L.gen_small(ctx, n, np_)
         pool = [(L.normalize_project(c['P']), L.normalize_config(c['C']), 'tlc') for c in small]
-        legal, yield_ = L.seeded_pairs(ctx, 14 if quick else 120)
+        legal, yield_ = L.seeded_pairs(ctx, 14 if quick else 100)
         pool += [(P, Cf, 'seeded') for P, Cf in legal]
         ctx.cover['seeded_candidates_legal'] = yield_
         ctx.rng.shuffle(pool)
